@@ -271,7 +271,7 @@ theorem tinv_step (c : Cfg) (s : TState α) (g : TGhost α) (e : TEv α) (hi : T
 /-! ### the specification state follows the ghosts -/
 
 /-- state update of the specification for one observed cycle -/
-def tspecStep [BEq α] (c : Cfg) (q : TSpec α) (e : TEv α) (o : TOut α) : TSpec α := (tcheck c.N c.lw q e o).2
+def tspecStep [BEq α] (c : Cfg) (q : TSpec α) (e : TEv α) (o : TOut α) : TSpec α := (tcheck c.N c.M c.lw q e o).2
 
 structure SpecRel (g : TGhost α) (q : TSpec α) : Prop where
   com : q.com = g.hist.take g.Pc
